@@ -1,24 +1,775 @@
-//! C20 — not implemented yet (stub so that the registry compiles).
+//! C20 — zippychord leaves exactly the expansion on screen.
+//!
+//! Oracle: a text-buffer model of the receiving application replays the OS stream (printable keys
+//! append a character honouring the shift / altgr state at press time, backspace deletes, space
+//! appends). After a completed dictionary entry (every chord of the line pressed together within
+//! the deadline, in any order, then released) the buffer must hold exactly the entry's expansion
+//! (plus the smart space when enabled); typing that forms no chord must pass through unchanged;
+//! shift / altgr must be back to what the user holds.
 
+use crate::core::rng::Rng;
+use crate::core::sim::{code_name, osc, render_hist, Ev, FileMap, Out, OutKind, Sim};
 use crate::core::{CaseOut, Check, Ctx};
+use serde_json::{json, Value};
+use std::collections::{BTreeMap, BTreeSet};
 
 pub struct C20Check;
 pub static C20: C20Check = C20Check;
+
+/// keys that chords are made of
+const POOL: [char; 8] = ['a', 'b', 'c', 'd', 'e', 'f', 'g', 'h'];
+/// keys that only ever occur in follow-up chords
+const FPOOL: [char; 3] = ['m', 'n', 'o'];
+/// never part of any chord
+const FOREIGN: [char; 3] = ['x', 'z', 'q'];
+const SENTINEL: &str = "#";
+
+#[derive(Clone, Debug)]
+struct Entry {
+    chords: Vec<Vec<char>>,
+    out: String,
+}
+impl Entry {
+    fn line(&self) -> String {
+        let ins: Vec<String> = self.chords.iter().map(|c| c.iter().collect()).collect();
+        format!("{}\t{}", ins.join(" "), self.out)
+    }
+    fn path(&self) -> Vec<BTreeSet<char>> {
+        self.chords.iter().map(|c| c.iter().copied().collect()).collect()
+    }
+}
+
+#[derive(Clone, Debug)]
+struct Dict {
+    entries: Vec<Entry>,
+}
+
+#[derive(Clone, Copy, Debug, PartialEq, Eq)]
+enum Smart {
+    None,
+    AddOnly,
+    Full,
+}
+impl Smart {
+    fn name(self) -> &'static str {
+        match self {
+            Smart::None => "none",
+            Smart::AddOnly => "add-space-only",
+            Smart::Full => "full",
+        }
+    }
+}
+
+impl Dict {
+    fn file(&self) -> String {
+        let mut s = String::from("// generated\n");
+        for e in &self.entries {
+            s.push_str(&e.line());
+            s.push('\n');
+        }
+        s
+    }
+    fn has_path(&self, p: &[BTreeSet<char>]) -> bool {
+        self.entries.iter().any(|e| e.path() == p)
+    }
+    /// output of the dictionary line whose chord path is exactly `p` ("" for an implied node)
+    fn out_of(&self, p: &[BTreeSet<char>]) -> Option<String> {
+        if let Some(e) = self.entries.iter().find(|e| e.path() == p) {
+            return Some(e.out.clone());
+        }
+        // implied node with empty output: a longer line goes through it
+        if self.entries.iter().any(|e| e.chords.len() > p.len() && e.path()[..p.len()] == *p) {
+            return Some(String::new());
+        }
+        None
+    }
+    fn toplevel_sets(&self) -> Vec<BTreeSet<char>> {
+        let mut v: Vec<BTreeSet<char>> = self.entries.iter().map(|e| e.path()[0].clone()).collect();
+        v.sort();
+        v.dedup();
+        v
+    }
+}
+
+fn gen_out(rng: &mut Rng, base: Option<&str>) -> String {
+    let mut s = String::new();
+    if let Some(b) = base {
+        // share a prefix with another expansion
+        let n = 1 + rng.usize(b.chars().count().max(1));
+        s.extend(b.chars().take(n));
+    }
+    let n = 1 + rng.usize(6);
+    for i in 0..n {
+        let c = (b'a' + rng.below(26) as u8) as char;
+        if rng.chance(1, 7) && i > 0 && !s.ends_with(' ') {
+            s.push(' ');
+        }
+        if rng.chance(1, 6) {
+            s.push(c.to_ascii_uppercase());
+        } else {
+            s.push(c);
+        }
+    }
+    if rng.chance(1, 8) {
+        s.push(' ');
+    }
+    s
+}
+
+fn gen_chord(rng: &mut Rng, pool: &[char], n: usize) -> Vec<char> {
+    rng.subset(pool.len(), n).into_iter().map(|i| pool[i]).collect()
+}
+
+fn gen_dict(rng: &mut Rng) -> Dict {
+    let mut d = Dict { entries: vec![] };
+    let n_top = 2 + rng.usize(3);
+    let mut guard = 0;
+    while d.entries.len() < n_top && guard < 50 {
+        guard += 1;
+        let n = *rng.pick(&[2usize, 2, 2, 3, 3, 4]);
+        let c = gen_chord(rng, &POOL, n);
+        let p = vec![c.iter().copied().collect::<BTreeSet<char>>()];
+        if !d.has_path(&p) {
+            d.entries.push(Entry { chords: vec![c], out: gen_out(rng, None) });
+        }
+    }
+    // chords that extend other chords (one or two levels)
+    for _ in 0..rng.usize(4) {
+        let bi = rng.usize(d.entries.len());
+        let b = d.entries[bi].clone();
+        if b.chords.len() != 1 || b.chords[0].len() >= 5 {
+            continue;
+        }
+        let mut c = b.chords[0].clone();
+        let extra: Vec<char> = POOL.iter().copied().filter(|k| !c.contains(k)).collect();
+        if extra.is_empty() {
+            continue;
+        }
+        c.push(*rng.pick(&extra));
+        let p = vec![c.iter().copied().collect::<BTreeSet<char>>()];
+        if !d.has_path(&p) {
+            let out = if rng.chance(1, 2) { gen_out(rng, Some(&b.out)) } else { gen_out(rng, None) };
+            d.entries.push(Entry { chords: vec![c], out });
+        }
+    }
+    // follow-up chords
+    for _ in 0..rng.usize(5) {
+        let bi = rng.usize(d.entries.len());
+        let b = d.entries[bi].clone();
+        if b.chords.len() >= 3 {
+            continue;
+        }
+        let n = *rng.pick(&[1usize, 2, 2, 2, 3]);
+        let mut pool: Vec<char> = POOL.to_vec();
+        if rng.chance(1, 3) {
+            pool.extend_from_slice(&FPOOL);
+        }
+        let c = gen_chord(rng, &pool, n);
+        let mut chords = b.chords.clone();
+        chords.push(c);
+        // sometimes skip the intermediate line so that the node has an empty output
+        let share = rng.chance(1, 3);
+        let e = Entry { chords, out: gen_out(rng, if share { Some(&b.out) } else { None }) };
+        if !d.has_path(&e.path()) {
+            d.entries.push(e);
+            if rng.chance(1, 6) {
+                // ... by removing the line the follow-up was attached to (if nothing else needs it)
+                let bp = b.path();
+                let others_need_it = d.entries.iter().any(|x| x.path() == bp) && d.entries.iter().filter(|x| x.path().len() > bp.len() && x.path()[..bp.len()] == bp[..]).count() == 0;
+                if !others_need_it && b.chords.len() == 1 {
+                    d.entries.retain(|x| x.path() != bp);
+                }
+            }
+        }
+    }
+    // a line that starts with a single key ("r df")
+    if rng.chance(1, 5) {
+        let k = *rng.pick(&FPOOL);
+        let c2 = gen_chord(rng, &POOL, 2);
+        let e = Entry { chords: vec![vec![k], c2], out: gen_out(rng, None) };
+        if !d.has_path(&e.path()) {
+            d.entries.push(e);
+        }
+    }
+    d
+}
+
+fn fixed_dicts() -> Vec<Dict> {
+    let e = |ins: &str, out: &str| Entry { chords: ins.split(' ').map(|c| c.chars().collect()).collect(), out: out.to_string() };
+    vec![
+        // the repository's own sample (letters only)
+        Dict { entries: vec![e("dy", "day"), e("dy h", "Monday"), e("abc", "Alphabet"), e("pr", "pre "), e("pra", "partner"), e("pr q", "pull request"), e("r df", "recipient"), e("gh", "hi"), e("ghef", "bye")] },
+        Dict { entries: vec![e("gi", "git "), e("gi s", "git status"), e("gi c", "git checkout "), e("gi c b", "git checkout b "), e("gi c a", "git commit amend ")] },
+        // known finding #18
+        Dict { entries: vec![e("af", "Vip"), e("af gf", "her")] },
+        Dict { entries: vec![e("ab", "one"), e("ab mn", "two")] },
+        // known finding #19
+        Dict { entries: vec![e("gef", "o whi"), e("gefb", "orx z v"), e("gefbd", "y")] },
+        Dict { entries: vec![e("fbe", "M"), e("fbeh", "Mqjf q w"), e("fbehc", "Abgf")] },
+        // found by this check: follow-up chord containing its parent, sibling follow-ups, implied node above a chord
+        Dict { entries: vec![e("ab", "q"), e("ab abc", "w"), e("abcd", "s")] },
+        Dict { entries: vec![e("ab", "one"), e("ab c", "two"), e("ab cd", "three")] },
+        Dict { entries: vec![e("df", "v"), e("dfa gh", "tq")] },
+        // chains without a shared prefix
+        Dict { entries: vec![e("ab", "xyz"), e("abc", "pqr"), e("abcd", "lmn")] },
+        Dict { entries: vec![e("ab", "Hello"), e("cd", "World"), e("ab cd", "both"), e("cd ab", "htob")] },
+    ]
+}
+
+// ---------------------------------------------------------------- text buffer model
+
+struct Keymap {
+    names: BTreeMap<String, char>,
+}
+impl Keymap {
+    fn new() -> Keymap {
+        let mut names = BTreeMap::new();
+        for c in 'a'..='z' {
+            names.insert(code_name(osc(&c.to_string())), c);
+        }
+        names.insert(code_name(osc("spc")), ' ');
+        names.insert(code_name(osc(".")), '.');
+        names.insert(code_name(osc(",")), ',');
+        names.insert(code_name(osc(";")), ';');
+        Keymap { names }
+    }
+}
+
+#[derive(Default, Clone)]
+struct Screen {
+    cells: Vec<String>,
+    ate_sentinel: bool,
+    backspaces: u64,
+}
+
+fn replay(trace: &[Out], km: &Keymap) -> (Screen, BTreeSet<String>) {
+    let mut sc = Screen { cells: vec![SENTINEL.to_string()], ..Default::default() };
+    let mut down: BTreeSet<String> = BTreeSet::new();
+    for o in trace {
+        match o.kind {
+            OutKind::Down => {
+                down.insert(o.name.clone());
+                if o.name == "BSpace" {
+                    sc.backspaces += 1;
+                    if sc.cells.len() <= 1 {
+                        sc.ate_sentinel = true;
+                    }
+                    sc.cells.pop();
+                } else if let Some(c) = km.names.get(&o.name) {
+                    let shift = down.contains("LShift") || down.contains("RShift");
+                    let altgr = down.contains("RAlt");
+                    let ch = if shift { c.to_ascii_uppercase() } else { *c };
+                    sc.cells.push(if altgr { format!("⌥{ch}") } else { ch.to_string() });
+                }
+            }
+            OutKind::Up => {
+                down.remove(&o.name);
+            }
+            _ => {}
+        }
+    }
+    (sc, down)
+}
+
+fn text(sc: &Screen) -> String {
+    sc.cells.concat()
+}
+
+// ---------------------------------------------------------------- scenarios
+
+#[derive(Clone, Copy, Debug, PartialEq, Eq)]
+enum Held {
+    None,
+    LShift,
+    RShift,
+    AltGr,
+}
+impl Held {
+    fn key(self) -> Option<&'static str> {
+        match self {
+            Held::None => None,
+            Held::LShift => Some("lsft"),
+            Held::RShift => Some("rsft"),
+            Held::AltGr => Some("ralt"),
+        }
+    }
+}
+
+#[derive(Clone, Copy, Debug, PartialEq, Eq)]
+enum Tail {
+    None,
+    Letter,
+    Dot,
+    LetterDot,
+}
+
+fn keyname(c: char) -> String {
+    match c {
+        ' ' => "spc".into(),
+        c => c.to_string(),
+    }
+}
+
+struct Built {
+    hist: Vec<Ev>,
+    /// index into hist after which the chord keys are all released but the modifier is still held
+    check_mod_at: usize,
+}
+
+/// orders: one press order per chord of the entry
+fn build_entry(orders: &[Vec<char>], held: Held, tail: Tail, rng: &mut Rng) -> Built {
+    let mut h = vec![Ev::T(3)];
+    if let Some(m) = held.key() {
+        h.push(Ev::P(osc(m)));
+        h.push(Ev::T(2 + rng.below(3) as u32));
+    }
+    for (ci, order) in orders.iter().enumerate() {
+        for (i, k) in order.iter().enumerate() {
+            h.push(Ev::P(osc(&keyname(*k))));
+            if i + 1 < order.len() {
+                h.push(Ev::T(*rng.pick(&[1u32, 1, 2, 3])));
+            }
+        }
+        h.push(Ev::T(*rng.pick(&[2u32, 5, 8])));
+        let mut rel = order.clone();
+        rng.shuffle(&mut rel);
+        for k in rel {
+            h.push(Ev::R(osc(&keyname(k))));
+            h.push(Ev::T(*rng.pick(&[0u32, 1, 2])));
+        }
+        if ci + 1 < orders.len() {
+            h.push(Ev::T(*rng.pick(&[2u32, 6])));
+        }
+    }
+    h.push(Ev::T(4));
+    let check_mod_at = h.len();
+    if let Some(m) = held.key() {
+        h.push(Ev::R(osc(m)));
+        h.push(Ev::T(3));
+    }
+    let tap = |h: &mut Vec<Ev>, k: &str| {
+        h.push(Ev::P(osc(k)));
+        h.push(Ev::T(3));
+        h.push(Ev::R(osc(k)));
+        h.push(Ev::T(3));
+    };
+    match tail {
+        Tail::None => {}
+        Tail::Letter => tap(&mut h, &FOREIGN[0].to_string()),
+        Tail::Dot => tap(&mut h, "."),
+        Tail::LetterDot => {
+            tap(&mut h, &FOREIGN[1].to_string());
+            tap(&mut h, ".");
+        }
+    }
+    h.push(Ev::T(10));
+    Built { hist: h, check_mod_at }
+}
+
+fn expected_entry(out: &str, smart: Smart, tail: Tail) -> String {
+    let mut s = format!("{SENTINEL}{out}");
+    let auto_space = smart != Smart::None && !out.is_empty() && !out.ends_with(' ');
+    if auto_space {
+        s.push(' ');
+    }
+    match tail {
+        Tail::None => {}
+        Tail::Letter => s.push(FOREIGN[0]),
+        Tail::Dot => {
+            if auto_space && smart == Smart::Full {
+                s.pop();
+            }
+            s.push('.');
+        }
+        Tail::LetterDot => {
+            s.push(FOREIGN[1]);
+            s.push('.');
+        }
+    }
+    s
+}
+
+/// What the press order of the last chord means structurally (for classifying a failure).
+struct Structure {
+    /// a follow-up chord of >= 2 keys pressed in an order in which some proper part of it (the first
+    /// key in the simplest case) is not contained in any top-level chord (#18)
+    followup_part_not_in_toplevel: bool,
+    /// a follow-up chord contains all keys of the chord it follows, so that pressing its remaining
+    /// keys while the parent chord is still held completes it without the release the guide describes
+    followup_within_hold: bool,
+    /// a node without an output of its own (it only exists because a longer line goes through it) is
+    /// reached by pressing further keys while a smaller chord / node that already activated is still held
+    empty_node_after_activation: bool,
+    /// while the keys of a follow-up chord go down, a smaller follow-up chord of the same parent
+    /// ("ab c" while typing "ab cd") completes first
+    followup_extends_sibling: bool,
+    /// >= 3 activations within one hold and two consecutive non-final ones share an output prefix (#19)
+    chain_shared_prefix: bool,
+    /// an intermediate key set of a follow-up chord is itself a top-level chord: the guide does not
+    /// say which wins
+    ambiguous: bool,
+    chain_len: usize,
+    shape: &'static str,
+}
+
+fn analyse(d: &Dict, e: &Entry, orders: &[Vec<char>]) -> Structure {
+    let mut st = Structure { followup_part_not_in_toplevel: false, followup_within_hold: false, empty_node_after_activation: false, followup_extends_sibling: false, chain_shared_prefix: false, ambiguous: false, chain_len: 0, shape: if e.chords.len() > 1 { "followup" } else { "single-chord" } };
+    let top = d.toplevel_sets();
+    let mut prefix_path: Vec<BTreeSet<char>> = vec![];
+    for (ci, order) in orders.iter().enumerate() {
+        // activations while the keys of this chord go down one by one
+        let mut chain: Vec<String> = vec![];
+        let mut heldset: BTreeSet<char> = BTreeSet::new();
+        let mut activated: Vec<Vec<BTreeSet<char>>> = vec![];
+        for (i, k) in order.iter().enumerate() {
+            heldset.insert(*k);
+            let mut p = prefix_path.clone();
+            p.push(heldset.clone());
+            let last = i + 1 == order.len();
+            for q in &activated {
+                let mut q2 = q.clone();
+                q2.push(heldset.clone());
+                if d.out_of(&q2).is_some() {
+                    st.followup_within_hold = true;
+                }
+            }
+            if let Some(o) = d.out_of(&p) {
+                if o.is_empty() && !chain.is_empty() {
+                    st.empty_node_after_activation = true;
+                }
+                if ci > 0 && !last {
+                    st.followup_extends_sibling = true;
+                }
+                chain.push(o);
+                activated.push(p.clone());
+            } else if ci > 0 && !last && top.contains(&heldset) {
+                st.ambiguous = true;
+            }
+            if ci > 0 && !last && !top.iter().any(|t| heldset.is_subset(t)) {
+                st.followup_part_not_in_toplevel = true;
+            }
+        }
+        if chain.len() >= 3 {
+            for w in 0..chain.len() - 2 {
+                let (a, b) = (&chain[w], &chain[w + 1]);
+                if !a.is_empty() && !b.is_empty() && a.chars().next() == b.chars().next() {
+                    st.chain_shared_prefix = true;
+                }
+            }
+        }
+        if chain.len() >= 2 && st.shape == "single-chord" {
+            st.shape = "superset-chain";
+        }
+        st.chain_len = st.chain_len.max(chain.len());
+        prefix_path.push(order.iter().copied().collect());
+    }
+    st
+}
+
+fn perms(keys: &[char], cap: usize, rng: &mut Rng) -> Vec<Vec<char>> {
+    fn rec(cur: &mut Vec<char>, rest: &mut Vec<char>, out: &mut Vec<Vec<char>>) {
+        if rest.is_empty() {
+            out.push(cur.clone());
+            return;
+        }
+        for i in 0..rest.len() {
+            let k = rest.remove(i);
+            cur.push(k);
+            rec(cur, rest, out);
+            cur.pop();
+            rest.insert(i, k);
+        }
+    }
+    let mut out = vec![];
+    rec(&mut vec![], &mut keys.to_vec(), &mut out);
+    if out.len() > cap {
+        rng.shuffle(&mut out);
+        out.truncate(cap);
+    }
+    out
+}
+
+fn config(smart: Smart, deadline: u32) -> String {
+    format!("(defcfg process-unmapped-keys yes)\n(defsrc)\n(deflayer base)\n(defzippy dict.txt on-first-press-chord-deadline {deadline} idle-reactivate-time {} smart-space {})\n", deadline, smart.name())
+}
+
+fn run(cfg: &str, file: &str, hist: &[Ev], check_mod_at: Option<usize>) -> Result<(Vec<Out>, Option<BTreeSet<String>>), String> {
+    let mut fm = FileMap::default();
+    fm.insert("dict.txt".to_string(), file.to_string());
+    let mut sim = Sim::new_with_files(cfg, fm)?;
+    let mut mods_mid = None;
+    for (i, e) in hist.iter().enumerate() {
+        if Some(i) == check_mod_at {
+            mods_mid = Some(sim.os.keys_down.clone());
+        }
+        sim.apply(e);
+    }
+    Ok((sim.normalized(), mods_mid))
+}
+
+const N_FIXED: u64 = 33;
+
+fn case_dict(ctx: &Ctx, idx: u64) -> (Dict, Rng) {
+    if idx < N_FIXED {
+        let f = fixed_dicts();
+        (f[(idx as usize) % f.len()].clone(), Rng::for_case(0x5eed, "C20", "fixed", idx))
+    } else {
+        let mut rng = Rng::for_case(ctx.seed, "C20", "case", idx);
+        (gen_dict(&mut rng), rng)
+    }
+}
 
 impl Check for C20Check {
     fn id(&self) -> &'static str {
         "C20"
     }
-    fn n_cases(&self, _ctx: &Ctx) -> u64 {
-        0
+    fn n_cases(&self, ctx: &Ctx) -> u64 {
+        N_FIXED + ctx.tier.sel(3_000, 40_000)
     }
-    fn run_case(&self, _ctx: &Ctx, _idx: u64) -> CaseOut {
-        CaseOut::new()
+    fn describe(&self, ctx: &Ctx, idx: u64) -> Value {
+        let (d, _) = case_dict(ctx, idx);
+        json!({"dictionary": d.file()})
+    }
+    fn run_case(&self, ctx: &Ctx, idx: u64) -> CaseOut {
+        let mut out = CaseOut::new();
+        let (d, mut rng) = case_dict(ctx, idx);
+        let smart = [Smart::None, Smart::AddOnly, Smart::Full][(idx % 3) as usize];
+        let deadline = if idx % 2 == 0 { 30 } else { 500 };
+        let cfg = config(smart, deadline);
+        let file = d.file();
+        let km = Keymap::new();
+        out.inc("dictionaries");
+        {
+            let mut fm = FileMap::default();
+            fm.insert("dict.txt".to_string(), file.clone());
+            if let Err(e) = kanata_parser::cfg::new_from_str(&cfg, fm) {
+                out.inc("dictionaries_rejected");
+                if ctx.verbose {
+                    eprintln!("rejected: {e:?}\n{file}");
+                }
+                return out;
+            }
+        }
+        out.inc("dictionaries_accepted");
+        if ctx.verbose {
+            eprintln!("{cfg}--- dict.txt\n{file}");
+        }
+        let perm_cap = ctx.tier.sel(24, 120);
+        for (ei, e) in d.entries.iter().enumerate() {
+            let last = e.chords.last().expect("entry has a chord");
+            let ps = perms(last, perm_cap, &mut rng);
+            for (pi, p) in ps.iter().enumerate() {
+                let mut variants: Vec<Held> = vec![Held::None];
+                if pi % 2 == 0 {
+                    variants.push(Held::LShift);
+                }
+                if pi % 5 == 1 {
+                    variants.push(Held::RShift);
+                }
+                if pi % 5 == 3 {
+                    variants.push(Held::AltGr);
+                }
+                for held in variants {
+                    let mut orders: Vec<Vec<char>> = e.chords[..e.chords.len() - 1]
+                        .iter()
+                        .map(|c| {
+                            let mut c = c.clone();
+                            rng.shuffle(&mut c);
+                            c
+                        })
+                        .collect();
+                    orders.push(p.clone());
+                    let tail = *rng.pick(&[Tail::None, Tail::None, Tail::Letter, Tail::Dot, Tail::LetterDot]);
+                    let st = analyse(&d, e, &orders);
+                    if st.ambiguous {
+                        out.inc("scenarios_skipped_followup_vs_toplevel");
+                        continue;
+                    }
+                    let b = build_entry(&orders, held, tail, &mut rng);
+                    out.inc("entry_scenarios");
+                    let (trace, mods_mid) = match run(&cfg, &file, &b.hist, Some(b.check_mod_at)) {
+                        Ok(x) => x,
+                        Err(err) => {
+                            out.inconclusive = Some(format!("accepted by the parser, refused by Kanata: {}", err.lines().next().unwrap_or("")));
+                            return out;
+                        }
+                    };
+                    let (screen, down_end) = replay(&trace, &km);
+                    let got = text(&screen);
+                    let want = expected_entry(&e.out, smart, tail);
+                    let shifted = matches!(held, Held::LShift | Held::RShift);
+                    let same = if shifted { got.to_lowercase() == want.to_lowercase() } else { got == want };
+                    out.count("backspaces_counted", screen.backspaces);
+                    out.max("followup_depth", e.chords.len() as u64);
+                    out.max("superset_chain", st.chain_len as u64);
+                    out.tag(format!("{}:{}:k{}:{:?}:{:?}:{}", st.shape, e.chords.len(), last.len(), held, tail, smart.name()));
+                    let witness = |extra: Value| {
+                        json!({"config": cfg, "files": {"dict.txt": file}, "entry": e.line(), "press_orders": orders.iter().map(|o| o.iter().collect::<String>()).collect::<Vec<_>>(), "held_modifier": format!("{held:?}"), "tail": format!("{tail:?}"),
+                            "history": render_hist(&b.hist), "observed": {"text": got, "os_stream": trace.iter().map(|o| o.short()).collect::<Vec<_>>()}, "expected": extra})
+                    };
+                    for (flag, name) in [
+                        (st.followup_part_not_in_toplevel, "followup-part-not-in-toplevel-chord"),
+                        (st.followup_within_hold, "followup-chord-completed-within-parent-hold"),
+                        (st.followup_extends_sibling, "followup-chord-extends-sibling-followup"),
+                        (st.empty_node_after_activation, "empty-output-node-extends-activated-chord"),
+                        (st.chain_shared_prefix, "superset-chain-shared-prefix"),
+                    ] {
+                        if flag {
+                            out.inc(&format!("structure:{name}:{}", if same { "text-exact" } else { "text-wrong" }));
+                        }
+                    }
+                    if same {
+                        out.inc("entries_text_exact");
+                        match st.shape {
+                            "followup" => out.inc("followup_entries_exact"),
+                            "superset-chain" => out.inc("superset_chain_entries_exact"),
+                            _ => {}
+                        }
+                        if shifted {
+                            out.inc("entries_with_shift_exact");
+                        }
+                        if tail != Tail::None {
+                            out.inc("entries_with_tail_exact");
+                        }
+                    } else {
+                        let class = if st.followup_part_not_in_toplevel {
+                            "followup-part-not-in-toplevel-chord"
+                        } else if st.followup_within_hold {
+                            "followup-chord-completed-within-parent-hold"
+                        } else if st.followup_extends_sibling {
+                            "followup-chord-extends-sibling-followup"
+                        } else if st.empty_node_after_activation {
+                            "empty-output-node-extends-activated-chord"
+                        } else if st.chain_shared_prefix {
+                            "superset-chain-shared-prefix"
+                        } else {
+                            st.shape
+                        };
+                        out.violate(format!("C20:wrong-text:{class}"), format!("after completing the entry {:?} (press order {:?}, {:?} held, smart-space {}) the application shows {:?} instead of {:?}", e.line(), orders.last().map(|o| o.iter().collect::<String>()).unwrap_or_default(), held, smart.name(), got, want), witness(json!({"text": want, "case_insensitive": shifted})));
+                    }
+                    // modifiers: while the user still holds the modifier it must be down, afterwards everything is up
+                    let mod_name = held.key().map(|k| code_name(osc(k)));
+                    let mid = mods_mid.unwrap_or_default();
+                    let mid_mods: Vec<&String> = mid.iter().filter(|k| matches!(k.as_str(), "LShift" | "RShift" | "RAlt")).collect();
+                    let want_mid: Vec<String> = mod_name.iter().cloned().collect();
+                    let mid_ok = mid_mods.iter().map(|s| s.to_string()).collect::<Vec<_>>() == want_mid;
+                    if !mid_ok && same {
+                        out.violate("C20:modifier-not-restored", format!("after the expansion the OS has {mid_mods:?} down while the user holds {want_mid:?}"), witness(json!({"modifiers_down_after_expansion": want_mid})));
+                    } else if !down_end.is_empty() && same {
+                        out.violate("C20:keys-left-down", format!("after everything was released the OS still has {down_end:?} down"), witness(json!({"keys_down_at_end": []})));
+                    } else if same {
+                        out.inc("modifier_state_restored");
+                    }
+                    let _ = ei;
+                }
+            }
+        }
+        // ---- typing that forms no chord passes through unchanged
+        let sets: Vec<BTreeSet<char>> = d.entries.iter().flat_map(|e| e.path()).collect();
+        let single_key_chords: BTreeSet<char> = sets.iter().filter(|s| s.len() == 1).flat_map(|s| s.iter().copied()).collect();
+        for _ in 0..ctx.tier.sel(4, 8) {
+            let mut h = vec![Ev::T(3)];
+            let mut want = String::from(SENTINEL);
+            let n = 3 + rng.usize(8);
+            let mut shift = false;
+            for _ in 0..n {
+                let c = match rng.below(10) {
+                    0..=4 => *rng.pick(&POOL),
+                    5 | 6 => *rng.pick(&FOREIGN),
+                    7 => ' ',
+                    8 => *rng.pick(&['.', ',', ';']),
+                    _ => *rng.pick(&FPOOL),
+                };
+                if single_key_chords.contains(&c) {
+                    continue;
+                }
+                if rng.chance(1, 6) {
+                    h.push(if shift { Ev::R(osc("lsft")) } else { Ev::P(osc("lsft")) });
+                    shift = !shift;
+                    h.push(Ev::T(2));
+                }
+                // rolled pair of two keys that are together not part of any chord
+                let partner = *rng.pick(&POOL);
+                let pair: BTreeSet<char> = [c, partner].into_iter().collect();
+                let can_roll = c.is_ascii_lowercase() && partner != c && !single_key_chords.contains(&partner) && !sets.iter().any(|s| pair.is_subset(s) || s.is_subset(&pair));
+                let up = |c: char| if shift { c.to_ascii_uppercase() } else { c };
+                if can_roll && rng.chance(1, 3) {
+                    h.extend([Ev::P(osc(&keyname(c))), Ev::T(2), Ev::P(osc(&keyname(partner))), Ev::T(2), Ev::R(osc(&keyname(c))), Ev::T(1), Ev::R(osc(&keyname(partner))), Ev::T(*rng.pick(&[2u32, 40]))]);
+                    want.push(up(c));
+                    want.push(up(partner));
+                } else {
+                    h.extend([Ev::P(osc(&keyname(c))), Ev::T(*rng.pick(&[1u32, 3, 6])), Ev::R(osc(&keyname(c))), Ev::T(*rng.pick(&[1u32, 3, 40]))]);
+                    want.push(up(c));
+                }
+            }
+            if shift {
+                h.push(Ev::R(osc("lsft")));
+            }
+            h.push(Ev::T(10));
+            out.inc("passthrough_scenarios");
+            match run(&cfg, &file, &h, None) {
+                Ok((trace, _)) => {
+                    let (screen, down_end) = replay(&trace, &km);
+                    let got = text(&screen);
+                    if got != want || screen.backspaces > 0 {
+                        out.violate("C20:passthrough-altered", format!("typing that forms no chord shows {got:?} instead of {want:?}"), json!({"config": cfg, "files": {"dict.txt": file}, "history": render_hist(&h), "observed": {"text": got, "os_stream": trace.iter().map(|o| o.short()).collect::<Vec<_>>()}, "expected": {"text": want, "backspaces": 0}}));
+                    } else if !down_end.is_empty() {
+                        out.violate("C20:keys-left-down", format!("after everything was released the OS still has {down_end:?} down"), json!({"config": cfg, "files": {"dict.txt": file}, "history": render_hist(&h), "observed": {"keys_down": down_end}, "expected": {"keys_down": []}}));
+                    } else {
+                        out.inc("passthrough_unchanged");
+                    }
+                }
+                Err(err) => out.inconclusive = Some(format!("accepted by the parser, refused by Kanata: {}", err.lines().next().unwrap_or(""))),
+            }
+        }
+        // ---- too slow: the second key arrives after the deadline, nothing activates
+        if let Some(e) = d.entries.iter().find(|e| e.chords.len() == 1 && e.chords[0].len() == 2) {
+            let (a, b) = (e.chords[0][0], e.chords[0][1]);
+            let solo = |k: char| sets.iter().any(|s| s.len() == 1 && s.contains(&k));
+            if !solo(a) && !solo(b) {
+                let h = vec![Ev::T(3), Ev::P(osc(&keyname(a))), Ev::T(deadline + 5), Ev::P(osc(&keyname(b))), Ev::T(5), Ev::R(osc(&keyname(a))), Ev::R(osc(&keyname(b))), Ev::T(10)];
+                out.inc("too_slow_scenarios");
+                if let Ok((trace, _)) = run(&cfg, &file, &h, None) {
+                    let (screen, _) = replay(&trace, &km);
+                    let got = text(&screen);
+                    let want = format!("{SENTINEL}{a}{b}");
+                    if got != want {
+                        out.violate("C20:activated-after-deadline", format!("keys pressed {} ms apart with a deadline of {deadline} show {got:?} instead of {want:?}", deadline + 5), json!({"config": cfg, "files": {"dict.txt": file}, "history": render_hist(&h), "observed": {"text": got}, "expected": {"text": want}}));
+                    } else {
+                        out.inc("too_slow_passed_through");
+                    }
+                }
+            }
+        }
+        if idx % 200 == 30 || idx == 0 {
+            out.sample = Some(json!({"idx": idx, "dictionary": file, "smart_space": smart.name(), "deadline": deadline}));
+        }
+        out
     }
     fn rule(&self) -> String {
-        "not implemented".into()
+        "case = one dictionary (24 fixed ones that are the same for every seed: the guide's / the tests' samples and the known-finding witnesses; then generated: 2-4 top-level chords of 2-4 keys over a-h, chords extending other chords by one key up to three levels with and without a shared output prefix, follow-up chords of 1-3 keys up to depth 3 incl. keys that occur in no top-level chord, nodes with empty output, upper/lower-case outputs with inner and trailing spaces) x one smart-space setting (idx mod 3) x deadline 30/500. Every entry is typed with every permutation of its last chord's keys (capped at 24 quick / 120 thorough; earlier chords in random order), gaps 1-3 ms, without modifier and with lsft / rsft / ralt held, followed by nothing / a foreign letter / a dot / both; then 4-8 random non-chord typings (taps, rolled pairs that are no subset of a chord, shift, punctuation, pauses) and one too-slow chord. Non-trivial = entry scenario replayed through the text-buffer model; distinct = (shape, depth, chord size, modifier, tail, smart-space).".into()
     }
     fn assumptions(&self) -> Vec<String> {
-        vec![]
+        vec![
+            "the application is a plain text field: a press of a printable key appends one character (upper case iff a shift key is down at that moment, marked if AltGr is down), backspace deletes one character, releases do nothing".into(),
+            "with shift held the first output character is capitalised by design, so those scenarios are compared case-insensitively and additionally require the shift key to be down again afterwards".into(),
+            "follow-up scenarios in which a proper subset of the follow-up chord is itself a top-level chord are not judged (the guide does not say which wins)".into(),
+            "only letters and spaces as outputs; output-character-mappings (no-erase, single-output) are not generated".into(),
+            "chord keys are released before the next chord of a line and before further typing".into(),
+        ]
+    }
+    fn floors(&self, _ctx: &Ctx) -> Vec<(&'static str, u64)> {
+        vec![
+            ("dictionaries_accepted", 800),
+            ("entries_text_exact", 10_000),
+            ("followup_entries_exact", 1_000),
+            ("superset_chain_entries_exact", 500),
+            ("entries_with_shift_exact", 2_000),
+            ("entries_with_tail_exact", 2_000),
+            ("modifier_state_restored", 5_000),
+            ("passthrough_unchanged", 2_000),
+            ("too_slow_passed_through", 200),
+            ("backspaces_counted", 20_000),
+        ]
     }
 }
